@@ -335,8 +335,16 @@ def check(run):
     e2e = E2E_SHAPES if not getattr(run, "only", None) else {k: v for k, v in E2E_SHAPES.items() if run.only in "e2e/" + k}
     run.bounds.append(f"C01/S e2e: {len(E2E_SHAPES)} permutation-free, lookup-free shapes (k=3,4; gates, trash, 2 phases + challenge, "
                       "2 proofs with committed+plain instances)")
+    ef_groups = []
+    if getattr(run, "only", None) and "exprfam" in run.only:
+        cfgs = []
+    if not getattr(run, "only", None) or "exprfam" in run.only:
+        ef_groups = ef_prepare(run)
+        if getattr(run, "only", None) and run.only != "exprfam":
+            ef_groups = [g for g in ef_groups if run.only in f"exprfam/{g[0]}/g{g[1]:03d}"] or ef_groups
     with ThreadPoolExecutor(max_workers=4) as ex:
         futs = [ex.submit(check_config, run, *c) for c in cfgs] + [ex.submit(check_e2e, run, n, m) for n, m in e2e.items()]
+        futs += [ex.submit(check_ef_twin, run)] if ef_groups else []
         for f in futs:
             try:
                 f.result()
@@ -346,6 +354,9 @@ def check(run):
                 ob = core.Ob("C01/S/engine", ENGINE, "engine S infrastructure")
                 run.add(ob)
                 ob.set(INCONCLUSIVE, f"crashed: {e!r}")
+    if ef_groups:
+        check_ef_groups(run, ef_groups)      # after the thread pool has been joined: fork is safe
+        ef_summary(run)
     bad = [x for x in REAL_XVAL if x[1] != "accepted" or not x[2]]
     run.translator_validation.append(
         f"S/C01: every configuration that HOLDS was also run on the real stack (Fq, KZG, Blake2b, MockProver on the "
@@ -357,9 +368,11 @@ def check(run):
 def replay(payload):
     """The same shape on the real stack (Fq, KZG unsafe_setup, Blake2b). Reproduces iff the verifier
     rejects the honest proof (MockProver must accept the witness)."""
-    if payload.get("engine_part") not in (None, "S") or payload.get("kind") not in ['honest-rejected', 'e2e']:
+    if payload.get("engine_part") not in (None, "S") or payload.get("kind") not in ['honest-rejected', 'e2e', 'exprfam']:
         return None
     symf.build()
+    if payload["kind"] == "exprfam":
+        return ef_replay(payload)
     m = payload["member"]
     if payload["kind"] == "e2e":
         # concrete mode: witness, blinding, public inputs and challenges are constants; the same real prover and
@@ -377,3 +390,313 @@ def replay(payload):
         print("the real verifier PANICKED (different finding); not counted as a reproduction of a schedule divergence")
         return 0
     return 1 if (honest and d.get("accepted") is False and "create_proof_error" not in d) else 0
+
+
+# ================================================================== expression-shape family (C01-c, prover's GraphEvaluator)
+"""C01-c on an EXPRESSION-SHAPE FAMILY. Only the prover evaluates constraint polynomials through
+`GraphEvaluator::add_expression` / `Calculation::evaluate` (constant folding, neutral operands, Double / Square,
+operand ordering, Horner over the parts); the verifier and MockProver evaluate `Expression` directly. For one-gate
+circuits whose constraints are  wrap(E_j, o_j)  with E_j drawn from a systematic family of Expression trees (built in
+sx through the real operator overloads and as hand-built enum nodes, o_j := E_j(witness)), the obligation is the e2e
+one: every claimed evaluation of the real verifier on the real prover's proof — in particular expected_h_eval against
+the committed quotient pieces — equals the committed polynomial at the point, for ALL free witness cells, blinding
+scalars, public inputs and challenges (normal form + ground residual, z3-new || cvc5; perturbed twin must be sat).
+De-duplication: trees are renamed to first-occurrence column order, then grouped by the post-keygen polynomial the
+REAL keygen produces (`sx exprsig`; keygen rebuilds every expression through the overloads): one representative per
+class (picked by VERIF_SEED), so identical prover+verifier inputs are run once. A violating group is bisected to single
+trees; replay = the single-tree circuit on the real stack (Fq, KZG unsafe_setup, Blake2b): MockProver accepts the
+witness and the real verifier rejects the real prover's honest proof."""
+import random as _random
+
+EF_FUNCS = ["proofs/src/plonk/evaluation.rs::GraphEvaluator::add_expression", "proofs/src/plonk/evaluation.rs::GraphEvaluator::evaluate",
+            "proofs/src/plonk/evaluation.rs::Calculation::evaluate", "proofs/src/plonk/evaluation.rs::ValueSource::get",
+            "proofs/src/plonk/evaluation.rs::get_rotation_idx", "proofs/src/plonk/evaluation.rs::Evaluator::new",
+            "proofs/src/plonk/evaluation.rs::Evaluator::evaluate_numerator", "proofs/src/plonk/circuit.rs::Expression::evaluate",
+            "proofs/src/plonk/circuit.rs::ConstraintSystem::replace_selectors_with_fixed", "proofs/src/plonk/mod.rs::evaluate_identities",
+            "proofs/src/plonk/prover.rs::create_proof", "proofs/src/plonk/verifier.rs::verify_algebraic_constraints",
+            "proofs/src/plonk/vanishing/prover.rs::construct", "proofs/src/plonk/trash/prover.rs::commit"]
+EF_GROUP = 24
+EF_STATS = {"variants": {}, "trees": 0, "groups": 0, "folded": 0, "sections": {}, "arms": {}}
+
+
+def _ef_sections():
+    """section name -> list of trees (before de-duplication). Deterministic; the seed only picks representatives,
+    the sample of the two-sided depth-2 / depth-3 sections, the packing and the context of each group."""
+    from vf.symf import ef_a, ef_k as K, ef_grow, ef_dedupe
+    quick = core.tier() == "quick"
+    rnd = _random.Random(1000 + core.seed())
+    a, b, c, f = ef_a(0), ef_a(1), ef_a(2), ["f", 0, 0]
+    sec = {}
+    # depth <= 1 over every leaf kind and the constants GraphEvaluator treats specially (0, 1, 2) and their negatives
+    lfull = [a, b, c, f, K(0), K(1), K(2), K(3), K(-1), K(-2)]
+    sec["d1"] = lfull + ef_grow(lfull)
+    # queries of every kind at rotations 0, 1, -1 (depth <= 1)
+    lrot = [[k, 0, r] for k in ("a", "f", "i") for r in (0, 1, -1)]
+    sec["rot"] = lrot + ef_grow(lrot, raw=False, unary=[("neg",), ("scale", 0), ("scale", 3)]) + \
+        ef_grow([["a", 1, 1], ["a", 1, -1]], lrot, raw=False, unary=[])
+    # named nestings: Horner-like, chains of subtractions, e - e, squares, doubles, weighted sums, folded operands
+    x = ["a", 0, 1]
+    named = [
+        ["add", ["mul", ["add", ["mul", a, b], c], b], f],
+        ["add", ["mul", ["add", ["mul", ["add", ["mul", a, f], b], f], c], f], K(3)],
+        ["add", ["mul", ["add", ["mul", a, x], b], x], c],
+        ["sub", ["sub", ["sub", a, b], c], f], ["sub", a, ["sub", b, ["sub", c, f]]],
+        ["neg", ["neg", a]], ["neg", ["neg", ["neg", a]]], ["neg", ["neg", K(3)]], ["neg", ["neg", K(0)]], ["neg", ["neg", K(-1)]],
+        ["sub", a, a], ["sub", ["mul", a, b], ["mul", a, b]], ["sub", ["mul", a, b], ["mul", b, a]], ["add", ["add", a, b], ["neg", ["add", b, a]]],
+        ["mul", ["add", a, b], ["add", b, a]], ["square", a], ["square", ["add", a, K(1)]], ["mul", ["mul", a, a], ["mul", a, a]],
+        ["mul", ["scale", a, 1], a], ["square", ["neg", a]], ["square", K(3)], ["square", ["scale", a, 0]],
+        ["mul", K(2), ["add", a, b]], ["mul", ["add", a, b], K(2)], ["mul", ["neg", K(-2)], a], ["mul", a, ["neg", K(-2)]], ["scale", a, 2],
+        ["mul", ["add", K(1), K(1)], a], ["mul", K(2), K(2)], ["mul", K(2), K(3)],
+        ["add", ["add", ["scale", a, 0], ["scale", b, 1]], ["scale", c, 3]], ["add", ["scale", a, 0], ["scale", b, 0]],
+        ["sub", ["scale", a, 0], ["scale", b, 0]], ["sub", ["scale", a, 0], ["sub", ["scale", b, 0], c]],
+        ["mul", ["scale", a, 0], b], ["mul", b, ["scale", a, 0]], ["mul", ["neg", K(-1)], a], ["mul", a, ["neg", K(-1)]],
+        ["mul", ["scale", K(1), 1], a], ["add", ["neg", K(0)], ["neg", a]], ["sub", ["neg", K(0)], a], ["add", a, ["neg", ["neg", K(0)]]],
+        ["Sum", K(0), ["Negated", a]], ["Sum", ["Negated", a], K(0)], ["Product", K(1), ["Product", K(0), a]], ["Sum", ["Product", K(0), a], ["Negated", b]],
+        ["Product", ["Sum", K(1), K(0)], a], ["Scaled", ["Scaled", a, 0], 3], ["Scaled", ["Scaled", a, 3], 0], ["Scaled", ["Scaled", a, 3], 3],
+    ]
+    for w in (0, 1, -1, 3):       # the linear-combination gate  w*a - (b - c)  and variants
+        named += [["sub", ["scale", a, w], ["sub", b, c]], ["sub", ["sub", b, c], ["scale", a, w]], ["add", ["scale", a, w], ["neg", b]],
+                  ["sub", ["mul", a, K(w)], b], ["sub", ["mul", K(w), a], b]]
+    sec["named"] = named
+    # selector queried inside the polynomial / challenge leaves (second phase output column)
+    q, ch = ["q"], ["c", 0]
+    sec["sel"] = [q, ["mul", q, a], ["add", q, a], ["sub", ["mul", q, a], b], ["scale", q, 0], ["sub", ["scale", q, 0], a], ["mul", q, q],
+                  ["neg", q], ["mul", q, K(2)], ["sub", K(1), q], ["mul", ["sub", K(1), q], a]]
+    sec["chal"] = [ch, ["mul", ch, a], ["add", ch, a], ["sub", ["mul", a, ch], b], ["sub", ["scale", ch, 0], a], ["mul", ch, ch], ["neg", ch],
+                   ["mul", K(2), ch], ["add", ["mul", ["add", ["mul", a, ch], b], ch], c], ["sub", ch, ch], ["scale", ch, 3]]
+    # depth 2, one side a leaf: every parent arm with every depth-1 operand presentation on either side
+    l0 = [a, b, K(0), K(1), K(3)]
+    l1 = ef_dedupe(l0 + ef_grow(l0, raw=False), canon=False)
+    lq = [a, b, c, K(0), K(1), K(3)]
+    sec["d2one"] = ef_grow(l1, raw=False, binary=[]) + ef_grow(l1, lq, raw=False, unary=[]) + ef_grow(lq, l1, raw=False, unary=[])
+
+    # depth 2, both sides depth 1: shared variables (a, b) and disjoint ones (c, f on the right)
+    def disjoint(t):
+        return symf.ef_map_leaves(t, lambda l: ["a", 2, l[2]] if l[:2] == ["a", 0] else (["f", 0, l[2]] if l[:2] == ["a", 1] else l))
+    two = ef_dedupe(ef_grow(l1, raw=False, unary=[]) + ef_grow(l1, [disjoint(t) for t in l1], raw=False, unary=[]))
+    sec["d2two"] = rnd.sample(two, 2400) if quick else two
+    if not quick:
+        # depth 3: a sampled depth-2 operand against every depth-1 operand, both orders, and unary on depth 2
+        s2 = rnd.sample(two, 60)
+        sec["d3"] = ef_grow(s2, raw=False, binary=[]) + ef_grow(s2, l1, raw=False, unary=[]) + ef_grow(l1, s2, raw=False, unary=[])
+        # more leaves at depth 2: instance, rotated, constant 2 / -1
+        lmore = [a, ["a", 0, 1], ["a", 1, -1], ["i", 0, 0], ["f", 0, 1], K(2), K(-1)]
+        l1m = ef_dedupe(lmore + ef_grow(lmore, raw=False), canon=False)
+        sec["d2more"] = ef_grow(l1m, raw=False, binary=[]) + ef_grow(l1m, lmore, raw=False, unary=[]) + ef_grow(lmore, l1m, raw=False, unary=[])
+    return sec, len(two)
+
+
+def _ef_ops(t):
+    return 0 if t[0] in ("a", "f", "i", "c", "k", "q") else 1 + sum(_ef_ops(x) for x in t[1:] if isinstance(x, list))
+
+
+def ef_prepare(run):
+    """enumerate, de-duplicate through the real keygen, pack into groups; returns [(section, index, trees, ctx)]"""
+    t0 = time.time()
+    sections, n_two = _ef_sections()
+    rnd = _random.Random(2000 + core.seed())
+    groups, rows = [], []
+    for name, trees in sections.items():
+        canon = symf.ef_dedupe(trees)
+        sel0 = "cmul" if name == "sel" else "mul"
+        sig = symf.ef_sig([symf.ef_member([t], sel=sel0) for t in canon])
+        cls, errs = {}, []
+        for t, s in zip(canon, sig):
+            if "error" in s:
+                errs.append(symf.ef_show(t))
+                continue
+            cls.setdefault(s["polys"]["gates"][0], []).append((t, s))
+        reps = []
+        for members in cls.values():
+            t, s = rnd.choice(members)
+            reps.append(t)
+            calcs = s["ev"]["graphs"][0]["calculations"]
+            # wrap + selector + Horner add 2 Stores, 1 Sub, 1 Mul, 1 Horner to the graph of the tree itself
+            if sum(1 for c_ in calcs if not c_.startswith("Store(")) - 3 < _ef_ops(t):
+                EF_STATS["folded"] += 1
+        rnd.shuffle(reps)
+        size = EF_GROUP if name not in ("sel", "chal") else 12
+        ng = 0
+        for gi, i in enumerate(range(0, len(reps), size)):
+            part = reps[i:i + size]
+            if name == "sel":
+                sel = "cmul"
+            else:
+                sel = ["mul", "cmul", "mul", "cmul", "mul", "add"][(gi + core.seed()) % 6]
+            ctx = dict(sel=sel, blinded=((gi + core.seed()) % 8 == 3),
+                       wraps=[symf.EF_WRAPS[(j + gi + core.seed()) % len(symf.EF_WRAPS)] for j in range(len(part))])
+            groups.append((name, gi, part, ctx))
+            ng += 1
+        EF_STATS["sections"][name] = dict(enumerated=len(trees), canonical=len(canon), classes=len(cls), groups=ng, keygen_errors=errs[:5])
+        rows.append(f"{name}: {len(trees)} trees -> {len(canon)} canonical -> {len(cls)} post-keygen classes -> {ng} circuits"
+                    + (f" ({len(errs)} rejected by keygen: {errs[:3]})" if errs else ""))
+        EF_STATS["trees"] += len(cls)
+    EF_STATS["two_sided_universe"] = n_two
+    run.log(f"exprfam: {EF_STATS['trees']} expression classes in {len(groups)} circuits, prepared in {time.time() - t0:.1f}s")
+    for r in rows:
+        run.log("  exprfam " + r)
+    return groups
+
+
+def _ef_run(member, ev=1):
+    d = symf.sx("prover", shape=member["shape"], k=member["k"], np=1, nbc=0, lens=member["lens"], nodes=1, coms=1, guard=1, ev=ev)
+    if "guard" not in d:
+        raise RuntimeError(f"no guard: prepare_error={d.get('prepare_error')} create_proof_error={d.get('create_proof_error')}")
+    return d
+
+
+def ef_decide(name, gi, trees, ctx):
+    """worker (separate process, no shared state): decide one group; returns a plain dict"""
+    out = dict(status=INCONCLUSIVE, detail="", solver=None, solver_s=0.0, queries=0, vacuity=None, key=None, payload=None, variants={}, t0=time.time())
+    member = symf.ef_member(trees, **ctx)
+    try:
+        d = _ef_run(member)
+        pairs, bad, atoms = e2e_pairs(d)
+    except Exception as ex:
+        out["detail"] = f"{ex!r}"[:300]
+        return out
+    for g in d["ev"]["graphs"]:
+        for v, n in g["counts"].items():
+            out["variants"][v] = out["variants"].get(v, 0) + n
+    if atoms:
+        out["detail"] = f"{atoms} opaque inverse atoms"
+        return out
+    r = solvers.solve(symf.residual_smt(pairs), timeout=120)
+    tw_pairs = list(pairs[:50]) or [(0, 0)]
+    tw_pairs[0] = (tw_pairs[0][0], (tw_pairs[0][1] + 1) % P)
+    tw = solvers.solve(symf.residual_smt(tw_pairs), timeout=60)
+    out.update(queries=2, vacuity=tw.status == "sat", solver=r.solver, solver_s=r.time_s + tw.time_s)
+    if r.status == "unsat" and not bad and out["vacuity"]:
+        out.update(status=HOLDS, detail=f"{len(d['guard'])} queries, {len(pairs)} monomials, degree {d['polys']['degree']}, graph of "
+                   f"{sum(len(g['calculations']) for g in d['ev']['graphs'])} calculations")
+        return out
+    if r.status != "sat" and not bad:
+        out["detail"] = f"solver {r.status}; twin {tw.status}"
+        return out
+    # bisect to single trees (same context), smallest first; the solver decides the single-tree residual again
+    shown = [symf.ef_show(t) for t in trees]
+    failing = []
+    for t, w in sorted(zip(trees, ctx["wraps"]), key=lambda tw_: (len(symf.ef_key(tw_[0])), symf.ef_key(tw_[0]))):
+        m1 = symf.ef_member([t], sel=ctx["sel"], blinded=ctx["blinded"], wraps=[w])
+        try:
+            d1 = _ef_run(m1)
+            p1, b1, _ = e2e_pairs(d1)
+            r1 = solvers.solve(symf.residual_smt(p1), timeout=60)
+            out["queries"] += 1
+            if b1 and r1.status == "sat":
+                failing.append((t, w, m1, b1, d1))
+        except Exception as ex:
+            print(f"exprfam bisect {symf.ef_show(t)}: {ex!r}"[:200], flush=True)
+    if failing:
+        t, w, m1, b1, d1 = failing[0]
+        out["key"] = "graph-evaluator:numerator-differs-from-expression"
+        payload = {"kind": "exprfam", "member": m1, "tree": symf.ef_show(t), "wrap": w, "queries": b1,
+                   "post_keygen_polynomial": (d1["polys"]["gates"] or [d1["polys"]["trashcans"]])[0][:1500],
+                   "prover_graph": d1["ev"]["graphs"], "failing_trees": [symf.ef_show(x[0]) for x in failing]}
+        detail = (f"{len(failing)}/{len(trees)} trees fail alone, smallest: E = {symf.ef_show(t)} (wrap {w}, {ctx['sel']} selector): the "
+                  f"verifier's claim differs from the committed polynomial for {b1}; prover graph {d1['ev']['graphs'][-1]['calculations']}")
+    else:
+        payload = {"kind": "exprfam", "member": member, "tree": "  ".join(shown), "wrap": ctx["wraps"], "queries": bad}
+        detail = f"the group fails on {bad} but no single tree does"
+    if ef_replay(payload, quiet=True):
+        out.update(status=VIOLATION, payload=payload, detail=detail + "; replay: MockProver accepts the witness, the real verifier rejects "
+                   "the real prover's honest proof")
+    else:
+        out["detail"] = detail + "; did not reproduce on the real stack"
+    return out
+
+
+def ef_ob(name, gi, trees, ctx):
+    return core.Ob(f"C01/S/exprfam/{name}/g{gi:03d}/quotient-consistent", ENGINE,
+                   "expression-shape family: on the real prover's proof every evaluation the real verifier claims — the quotient's "
+                   "expected_h_eval in particular — equals the polynomial the prover committed, at the query point",
+                   functions=EF_FUNCS,
+                   bound=f"one {ctx['sel']}-selector gate, k=3/4, {len(trees)} constraints wrap(E,o) with wraps {sorted(set(ctx['wraps']))}, "
+                         f"{'all columns blinded' if ctx['blinded'] else 'a,b,c unblinded, output columns blinded'}; all free witness cells, "
+                         f"blinding scalars, public inputs, challenges; E in: " + "  ".join(symf.ef_show(t) for t in trees),
+                   key="graph-evaluator:numerator-differs-from-expression")
+
+
+def check_ef_groups(run, groups):
+    """the groups are decided in 4 worker processes (the normaliser is pure Python); obligations are registered first"""
+    import multiprocessing
+    from concurrent.futures import ProcessPoolExecutor
+    obs = [run.add(ef_ob(*g)) for g in groups]
+    # heaviest contexts first (trash / fully blinded / k=4)
+    order = sorted(range(len(groups)), key=lambda i: -(2 * (groups[i][3]["sel"] == "add") + 2 * groups[i][3]["blinded"] + (groups[i][0] == "rot")))
+    symf.EF_WORKERS["C01.ef_decide"] = ef_decide
+    with ProcessPoolExecutor(max_workers=4, mp_context=multiprocessing.get_context("fork")) as ex:
+        futs = {i: ex.submit(symf.ef_dispatch, "C01.ef_decide", *groups[i]) for i in order}
+        for i, f in futs.items():
+            ob, g = obs[i], groups[i]
+            try:
+                o = f.result()
+            except Exception as e:
+                ob.set(INCONCLUSIVE, f"worker crashed: {e!r}"[:300])
+                continue
+            ob.queries, ob.vacuity = o["queries"], o["vacuity"]
+            if o["key"]:
+                ob.key = o["key"]
+            for v, n in o["variants"].items():
+                EF_STATS["variants"][v] = EF_STATS["variants"].get(v, 0) + n
+            EF_STATS["groups"] += 1
+            if o["status"] == VIOLATION:
+                ob.set(VIOLATION, o["detail"], solver=o["solver"], solver_s=o["solver_s"], replay=_wr(run, ob, o["payload"]))
+            else:
+                ob.set(o["status"], o["detail"], solver=o["solver"], solver_s=o["solver_s"])
+            if o["status"] != HOLDS:
+                run.log(f"exprfam/{g[0]}/g{g[1]:03d}: {ob.status} {o['detail'][:200]}")
+
+
+def check_ef_twin(run):
+    """vacuity of the family as a whole: a constraint the free witness does not satisfy must be seen on custom:vanishing"""
+    from vf.symf import ef_a
+    ob = core.Ob("C01/S/exprfam/twin/unsatisfied-constraint-is-seen", ENGINE,
+                 "expression-shape family, reachability twin: with one extra constraint `a = 0` that the free witness does not satisfy, the "
+                 "quotient query must differ (the obligation is not vacuous)", functions=EF_FUNCS,
+                 bound="one group of the family + the constraint polynomial a", key="graph-evaluator:twin")
+    run.add(ob)
+    try:
+        m = symf.ef_member([["mul", ef_a(0), ef_a(1)], ["sub", ["scale", ef_a(0), 0], ef_a(1)]])
+        m["shape"]["gates"][0]["cons"].append({"prods": [[ef_a(0)]], "out": None})
+        pairs, bad, atoms = e2e_pairs(_ef_run(m))
+        r = solvers.solve(symf.residual_smt(pairs), timeout=60)
+        ob.queries += 1
+        ob.vacuity = r.status == "sat"
+        if r.status == "sat" and "custom:vanishing" in bad:
+            ob.set(HOLDS, f"differs on {bad}", solver=r.solver, solver_s=r.time_s)
+        else:
+            ob.set(INCONCLUSIVE, f"twin not seen: solver {r.status}, differing {bad}")
+    except Exception as ex:
+        ob.set(INCONCLUSIVE, f"{ex!r}"[:300])
+
+
+def ef_replay(payload, quiet=False):
+    m = payload["member"]
+    rd = symf.sx("real", shape=m["shape"], k=m["k"], np=1, nbc=0, lens=m["lens"])
+    honest = all(x == "Ok(())" for x in rd.get("mock_prover", []))
+    if quiet:
+        return 1 if (all(x == "Ok(())" for x in rd.get("mock_prover", [])) and rd.get("accepted") is False
+                     and "create_proof_error" not in rd and not rd.get("panicked")) else 0
+    print(f"expression tree E = {payload.get('tree')}  wrap {payload.get('wrap')}")
+    print(f"real stack (Fq, KZG unsafe_setup, Blake2b): MockProver on the witness: {rd.get('mock_prover')}; create_proof: "
+          f"{rd.get('create_proof_error', 'ok')}; verifier verdict: {rd.get('verdict')}")
+    rej = honest and rd.get("accepted") is False and "create_proof_error" not in rd and not rd.get("panicked")
+    if rej:
+        print("=> the real verifier rejects the real prover's honest proof")
+    return 1 if rej else 0
+
+
+def ef_summary(run):
+    st = EF_STATS
+    secs = "; ".join(f"{n}: {v['enumerated']}->{v['canonical']}->{v['classes']} in {v['groups']} circuits" for n, v in st["sections"].items())
+    run.bounds.append(
+        f"C01/S exprfam ({core.tier()}, seed {core.seed()}): {st['trees']} expression classes in {st['groups']} one-gate circuits (k=3/4, selector kinds "
+        f"mul/cmul/add(trash), 5 wraps, blinded and unblinded inputs). Sections enumerated->canonical->post-keygen classes: {secs}. "
+        f"Two-sided depth-2 universe: {st.get('two_sided_universe')} canonical trees ({'2400 sampled by seed' if core.tier() == 'quick' else 'all'}).")
+    run.translator_validation.append(
+        f"S/C01 exprfam: Calculation variants in the GraphEvaluators the real keygen_pk built for the family (read off ProvingKey's Debug "
+        f"rendering): {dict(sorted(st['variants'].items()))}; {st['folded']} of {st['trees']} classes have fewer calculations than operator "
+        f"nodes (folded / reused); reachability twin C01/S/exprfam/twin; per-arm witnesses and their observed graphs: notes/symfield.md")
+    run.outside.append("C01 exprfam: lookup input/table expressions (the lookup prover sorts values; permuted columns and z leave opaque atoms), "
+                       "expressions under a permutation argument, depth > 3, constants other than 0, 1, 2, 3, -1, -2, more than one gate per circuit")
